@@ -15,9 +15,10 @@ RULE = ("P1: the multiplicative loop of binom_coeff with its overflow guard is m
         "(spec/ref/boxcox.ndjson: x from 2^-19 to 1e6, |lambda| from 2^-34 to 5) within the conditioning bound 16 eps "
         "max(1, x^lambda)/|lambda| of the definition; identities on grids: logistic(0) = 1/2, reflection, range and "
         "monotonicity on every multiple of 1/8 in +-745, logit inverts logistic on -700..16, logistic inverts logit for"
-        " p = 2^-1..2^-1000 (relative) and 1 - 2^-k, end points / rejection outside [0,1]; softmax: equal inputs of "
-        "magnitude up to +-1e4 give 1/n, non-negative, sum 1, order preserving, shift invariant for lengths 1..1000. "
-        "Case class = (function, input class).")
+        " p = 2^-1..2^-1000 (relative) and 1 - 2^-k, logit(1 - 2^-k) = ln(2^k - 1) and logit(2^-k) = -ln(2^k - 1) for k"
+        " <= 53, subnormal p, end points / rejection outside [0,1]; softmax: equal inputs of magnitude up to +-1e4 give"
+        " 1/n, non-negative, sum 1, order preserving, shift invariant for lengths 1..1000. Case class = (function, "
+        "input class).")
 ASSUMPTIONS = ["logistic / softmax / logit identities are relational observations evaluated by the harness on fixed grids (the spec cannot define exp)",
                "the dense f32 sweep of the quantifier is replaced by the 1/8 grid over +-745"]
 EXHAUSTIVE = True
